@@ -92,7 +92,9 @@ func H_C13_execute() {
 // H_C13_expression: Expression() returns the creation string byte for byte.
 func H_C13_expression() {
 	var s string
-	switch vChoose(4) {
+	switch vChoose(5) {
+	case 4: // two adjacent free bytes between tokens and at the end (CR LF, for one)
+		s = "a ==" + vStringN(2) + "1" + vString(2)
 	case 0:
 		s = "x == \"" + vStringN(2) + "\""
 	case 1:
@@ -100,7 +102,7 @@ func H_C13_expression() {
 	case 2:
 		s = " a  ==\t1 " + vString(1)
 	default:
-		s = "a == `" + vStringN(1) + "` or not b in c"
+		s = "a == `" + vStringN(2) + "` or not b in c"
 	}
 	ev, err := CreateEvaluator(s)
 	if err != nil {
